@@ -371,7 +371,7 @@ pub fn fraccion_renovable_acs_nrb(ep: &EnergyPerformance) -> Result<f32, EpbdErr
         let Q_biomass_an_ren = if has_biomass {
             let fp_ren_fraction_biomass = get_fpA_del_ren_fraction(BIOMASA, &ep.wfactors)?;
             // Id de sistemas con uso de BIOMASA para ACS
-            let idx_with_acs_use = Vec::from_iter(
+            let mut idx_with_acs_use = Vec::from_iter(
                 ep.components
                     .data
                     .iter()
@@ -381,6 +381,8 @@ pub fn fraccion_renovable_acs_nrb(ep: &EnergyPerformance) -> Result<f32, EpbdErr
                     .map(|c| c.id())
                     .collect::<HashSet<i32>>(),
             );
+            // Orden estable, para que el mensaje de error no dependa del orden del HashSet
+            idx_with_acs_use.sort_unstable();
             // Comprobar que se ha definido la salida de ACS para equipos de BIOMASA
             for idx in &idx_with_acs_use {
                 if !ep
@@ -412,7 +414,7 @@ pub fn fraccion_renovable_acs_nrb(ep: &EnergyPerformance) -> Result<f32, EpbdErr
             let fp_ren_fraction_dens_biomass =
                 get_fpA_del_ren_fraction(BIOMASADENSIFICADA, &ep.wfactors)?;
             // Id de sistemas con uso de BIOMASADENSIFICADA para ACS
-            let idx_with_acs_use = Vec::from_iter(
+            let mut idx_with_acs_use = Vec::from_iter(
                 ep.components
                     .data
                     .iter()
@@ -424,6 +426,7 @@ pub fn fraccion_renovable_acs_nrb(ep: &EnergyPerformance) -> Result<f32, EpbdErr
                     .map(|c| c.id())
                     .collect::<HashSet<i32>>(),
             );
+            idx_with_acs_use.sort_unstable();
             // Comprobar que se ha definido la salida de ACS para equipos de BIOMASADENSIFICADA
             for idx in &idx_with_acs_use {
                 if !ep
